@@ -35,7 +35,14 @@ ASSUMPTIONS = ["oracle tolerances: orthonormality 1e-6, ratio vs energy fraction
                "shipped extension vs recompiled source: 1e-9 absolute on tapers and ratios (0 observed); a larger difference means the "
                "installed binary does not correspond to src/cpp/mydpss.c",
                "argument forms (integer NW, numpy scalar N / NW / k, float32 NW with a dyadic value) must give the bit-identical result of "
-               "the plain Python-number call"]
+               "the plain Python-number call",
+               "histories (dpss_seq): a dpss call with arguments inside the quantifier must satisfy every clause whatever the caller did to "
+               "the arrays EARLIER calls returned; a call whose (N, NW, resolved k) occurred before in the history must return bit for bit "
+               "what the first such call returned before it was edited (0 difference over 600 repeated calls on the unchanged tree); "
+               "the ratios that pmtm / MultiTapering hand back are dpss's ratios (equal, 0 observed) and their spectra / weights those of "
+               "pmtm(x, e=, v=) with copies of the first call's arrays (1e-9 of the largest entry; 0 observed over 456 runs); arrays the caller "
+               "never wrote to must not change. numpy.shares_memory between two results and a non-None .base are quoted in the message of "
+               "such a violation but are not violations by themselves; read-only result arrays are not a violation (the edit is skipped)"]
 RULE = ("tri: N in {8, 9, 13, 16, 31, 32, 33, 64, 100, 129, 256, 511, 1024} (thorough: + 512, 1025, 2048) x NW in {1, 1.5, 2.5, 3.3, 4, 7.5, "
         "one uniform in [1, 8)}, k default or 2NW-1: the columns dpss returns against the eigenvectors of the model's tridiagonal matrix; "
         "fixed grid, the same in every round: N in {8..39} dense and {47, 64, 65, 100, 128, 129, 200, 256, 257, 512, 1000} (thorough: + 1023, "
@@ -47,7 +54,16 @@ RULE = ("tri: N in {8, 9, 13, 16, 31, 32, 33, 64, 100, 129, 256, 511, 1024} (tho
         "parities alternating) random N x 3 NW (grid value or uniform in [1, 8) with two decimals) x k uniform in 1..floor(2NW) or None; "
         "the shipped-extension kind on 5 fixed + a share of the random points; argument-form cases (8 fixed + one per random N); "
         "the region N >= 1200, NW >= 6.75 is generated like any other since the library reads the sign of odd tapers from the first "
-        "sample that carries a noticeable share of the energy (defect D28, fixed); (2049, 8, 6) etc. are fixed regression cases")
+        "sample that carries a noticeable share of the energy (defect D28, fixed); (2049, 8, 6) etc. are fixed regression cases; "
+        "histories (kind dpss_seq, oracle only, generated last): 10 fixed + 30 (quick) / 90 (thorough) random short sequences, N in 8..40 "
+        "(7 of 15), 41..300 (6 of 15), 301..1200 (thorough: ..4096) (2 of 15), NW grid value or uniform in [1, 8), k default / the number the "
+        "default resolves to / uniform in 1..floor(2NW): dpss(N, NW, k) (in a third of them twice), then the caller edits the returned "
+        "tapers and/or ratios IN PLACE (1-3 of: tapers *= sqrt(N), odd columns *= -1, tapers[:] = 0, one NaN, one sample + 1e-3, first "
+        "and last column swapped, ratios[:] = 2, ratios clipped to 0.5, ratios reversed, ratios moved by one ulp), optionally "
+        "pmtm(x, NW=, k=) or MultiTapering(x, NW=, k=)() on a record of N samples (method adapt / eigen / unity; half of the time the "
+        "ratios THEY return are edited in place as well) or a dpss call outside the domain that raises (NW = N/2, NW = None), then dpss "
+        "with the same N, NW and the same resolved k (as given; default <-> explicit number; numpy-scalar / int-NW / float32-NW / keyword "
+        "spelling), 2-3 neighbouring argument triples (k -+ 1, N -+ 1, NW -+ 0.2 with the same default k) and the first call once more")
 
 _LIB = {}
 
@@ -303,6 +319,232 @@ def oracle_forms(p):
     return out
 
 
+# ---- histories: dpss, the caller edits ITS arrays in place, dpss again -----------------------------------------------------------------
+# A case is a short list of steps (`ops`), interpreted in order; every dpss call of it has arguments inside the quantifier.
+#   ["call", N, NW, k, form]   tapers, ratios = dpss(..) spelled as FORMS[form] ("plain": Python numbers); the result gets the next index
+#   ["mod", i, name]           the caller modifies the arrays result i holds IN PLACE (MODS[name])
+#   ["pmtm", N, NW, k, method, name|None]   pmtm(x, NW=NW, k=k, method=method) on a record of N samples (it calls dpss itself); its third
+#                              return value (the ratios dpss gave it) is then modified in place by MODS[name] (eigenvalue mods only)
+#   ["mt", N, NW, k, method, name|None]     the same through MultiTapering(x, NW=, k=, method=)() and its attribute .eigenvalues
+#   ["fail", N, what]          a dpss call OUTSIDE the domain that raises before any computation (NW = N/2: AssertionError; NW = None:
+#                              TypeError); nothing is demanded of it, it is part of the history only
+# Demanded: every call's result satisfies all clauses (_check) -- a call whose (N, NW, resolved k) was already seen in the case must
+# return exactly (bit for bit: 0 difference observed on the unchanged tree over 600 repeated calls, N = 8..1000, as in dpss_forms) what
+# the FIRST such call returned before anybody modified it; the ratios pmtm / MultiTapering hand back are those ratios and their
+# spectra are those of pmtm(x, e=, v=) with the first call's (copied) arrays (1e-9 of the largest |Sk|; 0 observed); and at the end
+# every result that the caller did NOT modify still holds what it held when it was returned.
+MODS = {
+    "scale": lambda t, e: np.multiply(t, np.sqrt(t.shape[0]), out=t),       # Thomson's unit-rms scaling: tapers *= sqrt(N)
+    "flipodd": lambda t, e: np.multiply(t[:, 1::2], -1, out=t[:, 1::2]),     # the other sign convention for the antisymmetric tapers
+    "zero": lambda t, e: t.fill(0.0),
+    "nan": lambda t, e: t.__setitem__((0, 0), np.nan),
+    "bump": lambda t, e: t.__setitem__((t.shape[0] // 2, 0), t[t.shape[0] // 2, 0] + 1e-3),   # one sample of one taper
+    "swapcols": lambda t, e: t.__setitem__((slice(None), [0, -1]), t[:, [-1, 0]]),
+    "eig2": lambda t, e: e.fill(2.0),
+    "clip": lambda t, e: np.minimum(e, 0.5, out=e),
+    "rev": lambda t, e: e.__setitem__(slice(None), e[::-1].copy()),
+    "ulp": lambda t, e: e.__setitem__(slice(None), np.nextafter(e, 0.0)),     # one unit in the last place: seen by the exact comparison only
+    "both": lambda t, e: (np.multiply(t, np.sqrt(t.shape[0]), out=t), np.minimum(e, 0.5, out=e)),
+}
+EIGMODS = ("eig2", "clip", "rev", "ulp")
+
+
+def _seq_x(N):
+    n = np.arange(N)
+    return np.cos(0.2 * np.pi * n) + 0.25 * np.sin(0.37 * n * n / N + 0.3) + 0.1 * np.cos(1.9 * n)
+
+
+def _call_form(dpss, N, NW, k, form):
+    if form == "plain":
+        return dpss(N, NW, k)
+    a = FORMS[form](N, NW, k)
+    if form == "kwargs":
+        return dpss(N=a[0], NW=a[1], k=a[2]) if k is not None else dpss(a[0], NW=a[1])
+    return dpss(*a) if k is not None else dpss(a[0], a[1])
+
+
+def _trip(t, e, results):
+    """generic tripwires, quoted in the message of a violation (not violations by themselves)"""
+    s = []
+    for j, r in enumerate(results):
+        if np.shares_memory(t, r["t"]) or np.shares_memory(e, r["e"]):
+            s.append("shares memory with result %d" % j)
+    if t.base is not None or e.base is not None:
+        s.append(".base of the result is not None")
+    return (" [" + "; ".join(s) + "]") if s else ""
+
+
+def oracle_seq(p):
+    _load_lib()
+    from spectrum.mtm import dpss, pmtm, MultiTapering
+    out = []
+    results = []        # per call: the arrays handed out, copies taken at return, the key, whether the caller modified them
+    ref = {}            # (N, NW, resolved k) -> copies of what the first call with these arguments returned
+    hist = []
+    nmis = 0
+
+    def H():
+        return "after " + ("; ".join(hist) if hist else "nothing")
+
+    for op in p["ops"]:
+        what = op[0]
+        if what == "call":
+            N, NW, k, form = int(op[1]), float(op[2]), op[3], op[4]
+            kk = _k(N, NW, k)
+            tag = "call %d, dpss(%d, %g, %s)%s" % (len(results), N, NW, k, "" if form == "plain" else " [" + form + "]")
+            t, e = _call_form(dpss, N, NW, k, form)
+            t, e = np.asarray(t), np.asarray(e)
+            trip = _trip(t, e, results)
+            key = (N, NW, kk)
+            if key in ref:
+                ct, ce = ref[key]
+                if t.shape != ct.shape or e.shape != ce.shape or not (np.array_equal(t, ct) and np.array_equal(e, ce)):
+                    nmis += 1
+                    if nmis == 1:
+                        why = _check(t, e, N, NW, kk, tag)
+                        with np.errstate(all="ignore"):
+                            dt = np.max(np.abs(t - ct)) if t.shape == ct.shape else np.inf
+                            de = np.max(np.abs(e - ce)) if e.shape == ce.shape else np.inf
+                        out.append("%s, %s: the result is not what the first call with these arguments returned (tapers differ by %.3g, "
+                                   "ratios by %.3g)%s%s" % (
+                                       tag, H(), dt, de, trip,
+                                       ("; " + why[0] + (" (+%d more)" % (len(why) - 1) if len(why) > 1 else "")) if why else
+                                       "; the clauses still hold within their tolerances"))
+            else:
+                why = _check(t, e, N, NW, kk, tag)
+                out.extend("%s [%s]%s" % (w, H(), trip) for w in why)
+                ref[key] = (t.copy(), e.copy())
+            results.append({"t": t, "e": e, "ct": t.copy(), "ce": e.copy(), "key": key, "mod": False, "tag": tag})
+            hist.append("dpss(%d, %g, %s)" % (N, NW, k))
+        elif what == "mod":
+            r = results[int(op[1])]
+            try:
+                MODS[op[2]](r["t"], r["e"])
+                r["mod"] = True
+                hist.append("%s in place on result %d" % (op[2], int(op[1])))
+            except ValueError:
+                # read-only result arrays: the caller cannot edit them in place (nothing in the statement says they are writable)
+                hist.append("(result %d is read-only: %s not applied)" % (int(op[1]), op[2]))
+        elif what in ("pmtm", "mt"):
+            N, NW, k, method, name = int(op[1]), float(op[2]), op[3], op[4], op[5]
+            kk = _k(N, NW, k)
+            x = _seq_x(N)
+            tag = "%s(x[%d], NW=%g, k=%s, method=%s)" % ("pmtm" if what == "pmtm" else "MultiTapering", N, NW, k, method)
+            if what == "pmtm":
+                S, w, ev = pmtm(x, NW=NW, k=k, method=method)
+            else:
+                mt = MultiTapering(x, NW=NW, k=k, method=method)
+                mt()
+                S, w, ev = None, mt.weights, mt.eigenvalues
+            nfft = None if what == "pmtm" else mt.NFFT      # MultiTapering passes its own NFFT on to pmtm
+            key = (N, NW, kk)
+            if key in ref:
+                ct, ce = ref[key]
+                ev_ = np.asarray(ev)
+                if ev_.shape != ce.shape or not np.array_equal(ev_, ce):
+                    out.append("%s, %s: the ratios it got from dpss are not the ones dpss returned first for these arguments (%s vs %s)" % (
+                        tag, H(), np.round(ev_[:3], 9), np.round(ce[:3], 9)))
+                S2, w2, _ = pmtm(x, e=ce.copy(), v=ct.copy(), NFFT=nfft, method=method)
+                if S is not None and not (S.shape == S2.shape and np.max(np.abs(S - S2)) <= 1e-9 * np.max(np.abs(S2))):
+                    out.append("%s, %s: the tapered spectra are not those of pmtm(x, e=, v=) with the arrays dpss returned first for these "
+                               "arguments (largest difference %.3g of the largest |Sk|)" % (
+                                   tag, H(), (np.max(np.abs(S - S2)) / np.max(np.abs(S2))) if S.shape == S2.shape else np.inf))
+                w_ = np.asarray(w)
+                if not (w_.shape == np.shape(w2) and np.max(np.abs(w_ - w2)) <= 1e-9 * np.max(np.abs(w2))):
+                    out.append("%s, %s: the weights are not those of pmtm(x, e=, v=) with the arrays dpss returned first for these "
+                               "arguments" % (tag, H()))
+            hist.append(tag)
+            if name is not None:
+                try:
+                    MODS[name](None, ev)
+                    hist.append("%s in place on the ratios it returned" % name)
+                except ValueError:
+                    pass
+        elif what == "fail":
+            N = int(op[1])
+            try:
+                if op[2] == "NWhalf":
+                    dpss(N, N / 2.0)
+                else:
+                    dpss(N, None)
+            except (AssertionError, TypeError, ValueError):
+                pass
+            hist.append("dpss(%d, %s) (out of domain)" % (N, "N/2" if op[2] == "NWhalf" else "None"))
+        else:
+            raise ValueError("unknown step %r" % (op,))
+    if nmis > 1:
+        out[[i for i, w in enumerate(out) if "is not what the first call" in w][0]] += " (and %d later calls of this history likewise)" % (nmis - 1)
+    for j, r in enumerate(results):
+        if not r["mod"] and not (np.array_equal(r["t"], r["ct"]) and np.array_equal(r["e"], r["ce"])):
+            with np.errstate(all="ignore"):
+                out.append("%s: the arrays this call returned changed although the caller never wrote to them (tapers by %.3g, ratios by "
+                           "%.3g), %s%s" % (r["tag"], np.max(np.abs(r["t"] - r["ct"])), np.max(np.abs(r["e"] - r["ce"])), H(),
+                                            _trip(r["t"], r["e"], results[:j] + results[j + 1:])))
+    return out
+
+
+def _seq_ops(rng, N, NW, k, mods, between=None, twice_first=False, neighbours=True, form2=None):
+    """the template of a history: call, (call), modifications, (pmtm / MultiTapering / failing call), the same call again, the same
+    call spelled differently, neighbouring arguments, the same call once more"""
+    kk = _k(N, NW, k)
+    kmax = int(np.floor(2 * NW))
+    ops = [["call", N, NW, k, "plain"]]
+    if twice_first:
+        ops.append(["call", N, NW, k, "plain"])
+    for j, m in enumerate(mods):
+        ops.append(["mod", (j % 2) if twice_first else 0, m])
+    method = ("adapt" if kk >= 2 else "eigen", "eigen", "unity")[rng.randrange(3)]
+    if between in ("pmtm", "mt"):
+        ops.append([between, N, NW, k, method, EIGMODS[rng.randrange(len(EIGMODS))] if rng.randrange(2) else None])
+    elif between == "fail":
+        ops.append(["fail", N, ("NWhalf", "NWnone")[rng.randrange(2)]])
+    ops.append(["call", N, NW, k, "plain"])
+    # the same (N, NW, resolved k) spelled differently: default k <-> the number it resolves to, other argument types
+    kdef = int(max(min(round(2 * NW), N), 1))
+    if k is None:
+        ops.append(["call", N, NW, kdef, "plain"])
+    elif k == kdef:
+        ops.append(["call", N, NW, None, "plain"])
+    if form2 is not None and not (form2 == "intNW" and NW != int(NW)) and not (form2 == "f32NW" and float(np.float32(NW)) != NW):
+        ops.append(["call", N, NW, k, form2])
+    if neighbours:
+        nb = []
+        if kk > 1:
+            nb.append((N, NW, kk - 1))
+        if kk + 1 <= kmax:
+            nb.append((N, NW, kk + 1))
+        if N + 1 <= 4096:
+            nb.append((N + 1, NW, k))
+        if N - 1 >= 8 and NW < (N - 1) / 2.0:
+            nb.append((N - 1, NW, k))
+        for NW2 in (round(NW + 0.2, 2), round(NW - 0.2, 2)):
+            if 1.0 <= NW2 <= 8.0 and round(2 * NW2) == round(2 * NW) and NW2 < N / 2.0 and (k is None or k <= int(np.floor(2 * NW2))):
+                nb.append((N, NW2, k))             # another NW with the same default k
+                break
+        rng.shuffle(nb)
+        for a in nb[:2 if N > 300 else 3]:
+            ops.append(["call", a[0], a[1], a[2], "plain"])
+        ops.append(["call", N, NW, k, "plain"])
+    return ops
+
+
+def _seq_tags(p):
+    t = ["seq"] + _tags(p)
+    names = set()
+    for op in p["ops"]:
+        if op[0] == "mod":
+            names.add("seq-mod:" + op[2])
+        elif op[0] in ("pmtm", "mt"):
+            names.add("seq-through:" + op[0])
+            if op[5] is not None:
+                names.add("seq-mod:" + op[0] + "-ratios-" + op[5])
+        elif op[0] == "fail":
+            names.add("seq-through:failing-call")
+        elif op[0] == "call" and op[4] != "plain":
+            names.add("seq-respelled:" + op[4])
+    return t + sorted(names)
+
+
 def _key(p):
     return "%d|%g|%s" % (p["N"], p["NW"], p["k"]) + ("|" + p["form"] if "form" in p else "")
 
@@ -323,6 +565,9 @@ KINDS = {
             "tags": lambda p: ["tri"] + _tags(p)},
     "dpss_shipped": {"oracle": oracle_shipped, "key": _key, "tags": _tags},
     "dpss_forms": {"oracle": oracle_forms, "key": _key, "tags": lambda p: _tags(p) + ["form:" + p["form"]]},
+    # histories (oracle only): the caller edits the arrays it was given, then calls again; see oracle_seq
+    "dpss_seq": {"oracle": oracle_seq, "key": lambda p: "seq|" + _key(p) + "|" + ",".join(":".join(str(x) for x in op) for op in p["ops"]),
+                 "tags": _seq_tags},
 }
 
 NWS_OLD = [1, 1.5, 2, 2.5, 3, 3.5, 4, 5, 6, 8, 1.2, 2.3, 2.7, 3.3]
@@ -439,3 +684,45 @@ def gen(rng, nrng, tier):
                 yield ("dpss_forms", {"N": N, "NW": NW, "k": k, "form": form})
             continue
         yield ("dpss_forms", {"N": N, "NW": NW, "k": k, "form": form})
+    # ---- histories (last, so that whatever a history leaves behind in the process cannot reach the single-call cases above):
+    # dpss, in-place edits of the returned arrays by the caller, dpss again (same arguments, respelled, neighbouring), also through
+    # pmtm / MultiTapering and across a failing call
+    for N, NW, k, mods, between, twice, form2 in (
+            (256, 4.0, 7, ["scale", "flipodd", "clip"], None, False, None),
+            (1000, 2.5, None, ["scale"], None, False, "npscalars"),
+            (63, 3.7, 5, ["both"], None, True, None),
+            (8, 1.0, 2, ["zero"], None, False, "intNW"),
+            (64, 2.5, 4, ["eig2"], "pmtm", False, "kwargs"),
+            (64, 4.0, None, ["flipodd"], "mt", False, "intNW"),
+            (129, 3.5, 7, ["ulp"], None, True, "f32NW"),
+            (33, 1.5, None, ["nan", "rev"], "fail", False, "npints"),
+            (100, 3.3, None, [], "pmtm", False, None),          # nothing but pmtm's own return value is edited
+            (20, 2.0, 1, ["bump"], "mt", True, None)):
+        ops = _seq_ops(rng, N, NW, k, mods, between, twice, True, form2)
+        if not mods:
+            ops = [op[:5] + ["eig2"] if op[0] in ("pmtm", "mt") else op for op in ops]
+        yield ("dpss_seq", {"N": N, "NW": NW, "k": k, "ops": ops})
+    names = sorted(MODS)
+    ns = 30 if quick else 90
+    for i in range(ns):
+        c = i % 15
+        if c < 7:
+            N = rng.randint(8, 40)
+        elif c < 13:
+            N = rng.randint(41, 300)
+        else:
+            N = rng.randint(301, 1200 if quick else 4096)
+        NW = round(rng.uniform(1.0, 8.0), 2) if rng.randrange(3) == 0 else float(NWS[rng.randrange(len(NWS))])
+        if NW >= N / 2.0:
+            NW = float(NWS[rng.randrange(4)])               # 1 .. 2.5 < N/2 for every N >= 8
+        kmax = int(np.floor(2 * NW))
+        kdef = int(max(min(round(2 * NW), N), 1))
+        r = rng.randrange(3)
+        k = None if r == 0 else (kdef if r == 1 and kdef <= kmax else rng.randint(1, kmax))
+        mods = [names[rng.randrange(len(names))] for _ in range(rng.randint(1, 3))]
+        if _k(N, NW, k) == 1 and all(x in ("rev", "swapcols", "flipodd") for x in mods):
+            mods.append("scale")                            # a single taper: those three leave the arrays as they are
+        between = (None, None, "pmtm", "mt", "fail")[rng.randrange(5)]
+        form2 = (None, None) + tuple(forms)
+        form2 = form2[rng.randrange(len(form2))]
+        yield ("dpss_seq", {"N": N, "NW": NW, "k": k, "ops": _seq_ops(rng, N, NW, k, mods, between, rng.randrange(3) == 0, True, form2)})
